@@ -83,7 +83,13 @@ fn join_lines(components: &[String]) -> String {
 }
 
 fn deserialize_package_list(value: &str) -> Result<Vec<String>, String> {
-    Ok(value.split('\n').map(|s| s.to_string()).collect())
+    // The list starts on the line after the field name; the lossy paragraph reader
+    // keeps that empty first line
+    Ok(value
+        .split('\n')
+        .filter(|s| !s.is_empty())
+        .map(|s| s.to_string())
+        .collect())
 }
 
 #[derive(Debug, Clone, PartialEq, Eq, ToDeb822, FromDeb822)]
